@@ -238,6 +238,26 @@ func c13r1(c *Ctx) {
 							bad = append(bad, m+" mutates "+c.P.Env(fn).Term(cc.Args[0])+" at "+c.P.InstrPos(in)+" ("+w+")")
 						}
 					}
+					// input memory handed to code outside the module: only to functions known not to write into (or keep for
+					// writing) the slice they are given; injected dependencies are covered by A-deps
+					if sc := cc.StaticCallee(); sc != nil && !cc.IsInvoke() && (sc.Pkg == nil || !strings.HasPrefix(sc.Pkg.Pkg.Path(), modPath)) {
+						if _, isBuiltin := cc.Value.(*ssa.Builtin); !isBuiltin {
+							name := CalleeName(x)
+							for i, a := range cc.Args {
+								w, ok := D[a]
+								if !ok {
+									continue
+								}
+								if _, isSlice := a.Type().Underlying().(*types.Slice); !isSlice {
+									continue
+								}
+								if readOnlyForeign(name, i) {
+									continue
+								}
+								bad = append(bad, "input memory "+c.P.Env(fn).Term(a)+" is handed to "+name+" at "+c.P.InstrPos(in)+", which may write into it or keep it for writing ("+w+")")
+							}
+						}
+					}
 				}
 				if v, ok := in.(ssa.Value); ok {
 					if _, ok := D[v]; ok {
@@ -500,4 +520,37 @@ func c13r3(c *Ctx) {
 	} else {
 		c.Fail(rule, "anchor", "-", "positive control: map-range detector", "-", fmt.Sprintf("the detector found only %d map ranges in the module (>= 3 exist on the reference tree): it no longer recognises the construct", nr))
 	}
+}
+
+
+// readOnlyForeign: functions outside the module that only read the slice they receive at position i (and keep no writable
+// alias of it). Everything else is treated as a potential writer: bytes.NewBuffer takes ownership and later writes go into the
+// spare capacity of the argument; the Append*/Put*/Encode(dst, …) families write into their destination.
+func readOnlyForeign(name string, i int) bool {
+	switch {
+	case strings.HasPrefix(name, "bytes."):
+		switch strings.TrimPrefix(name, "bytes.") {
+		case "Equal", "Compare", "HasPrefix", "HasSuffix", "Contains", "Index", "IndexByte", "LastIndex", "Count", "EqualFold", "ContainsAny", "IndexAny",
+			"TrimLeft", "TrimRight", "Trim", "TrimSpace", "TrimPrefix", "TrimSuffix", "Split", "SplitN", "Fields", "NewReader", "ToLower", "ToUpper", "Repeat", "Join", "Clone":
+			return true
+		}
+		return false
+	case name == "encoding/hex.EncodeToString", name == "encoding/hex.Decode" && i == 1, name == "encoding/hex.Encode" && i == 1, name == "encoding/hex.Dump":
+		return true
+	case name == "(*math/big.Int).SetBytes":
+		return true
+	case strings.HasPrefix(name, "fmt.") && !strings.HasPrefix(name, "fmt.Append") && !strings.HasPrefix(name, "fmt.Sscan") && !strings.HasPrefix(name, "fmt.Fscan"):
+		return true
+	case strings.HasPrefix(name, "encoding/binary.") && (strings.HasSuffix(name, ".Uint16") || strings.HasSuffix(name, ".Uint32") || strings.HasSuffix(name, ".Uint64") || strings.HasSuffix(name, "Uvarint") && !strings.Contains(name, "Put") || strings.HasSuffix(name, ".Varint")):
+		return true
+	case name == "unicode/utf8.Valid", name == "unicode/utf8.DecodeRune", name == "unicode/utf8.RuneCount", name == "unicode/utf8.FullRune":
+		return true
+	case strings.HasPrefix(name, "crypto/") && (strings.HasSuffix(name, ".Sum256") || strings.HasSuffix(name, ".Sum512") || strings.HasSuffix(name, ".Sum")) && i == 0:
+		return true
+	case strings.HasPrefix(name, "strings."):
+		return true // strings are immutable; a []string list is only read
+	case name == "errors.New", name == "errors.Is", name == "errors.As":
+		return true
+	}
+	return false
 }
